@@ -97,8 +97,69 @@ def witness(g, p, k, b, exp):
     return f'{left} {tail} z'
 
 
+def check_operator_actions(ctx, g, d):
+    """the action of every operator production builds the operation it stands for: interpreted (sa/interp.py) on operand stand-ins of several kinds (a column,
+    the same operator again, a constant), the result must be an operation node with the written operator and exactly the operands, by identity and in order"""
+    from ..interp import Interp, Obj, Raised, Env
+    from ..grammar import prod_record
+    isa = {'UnaryOperation': {'Operation', 'ASTNode'}, 'BinaryOperation': {'Operation', 'ASTNode'}, 'BetweenOperation': {'Operation', 'ASTNode'},
+           'Identifier': {'ASTNode'}, 'Constant': {'ASTNode'}, 'NullConstant': {'Constant', 'ASTNode'}, 'Tuple': {'ASTNode'}, 'Select': {'ASTNode'}}
+    n = 0
+    for p in g.productions[1:]:
+        k = prod_kind(p)
+        if not k or p.name != 'expr' or p.func is None:
+            continue
+        opnd = [i for i, s_ in enumerate(p.rhs) if s_ == 'expr']
+        optoks = [s_ for s_ in p.rhs if s_ != 'expr']
+        optext = ' '.join((spelling(g.lexer, t_) or t_) for t_ in optoks)
+
+        def mk(kind_, tag):
+            if kind_ == 'column':
+                return Obj('Identifier', parts=[tag], alias=None, parentheses=False)
+            if kind_ == 'constant':
+                return Obj('Constant', value=5, alias=None, parentheses=False)
+            if kind_ == 'tuple':
+                return Obj('Tuple', items=[Obj('Constant', value=1, alias=None, parentheses=False)], alias=None, parentheses=False)
+            opk = 'UnaryOperation' if k[0] == 'un' else ('BetweenOperation' if k[0] == 'between' else 'BinaryOperation')
+            inner = [Obj('Identifier', parts=[f'{tag}{j}'], alias=None, parentheses=False) for j in range(len(opnd))]
+            return Obj(opk, op=optext.lower() if kind_ == 'same-lower' else optext.upper(), args=inner, alias=None, parentheses=kind_ == 'same-parenthesised')
+        variants = [['column'] * len(opnd)]
+        for i in range(len(opnd)):
+            for kind_ in ('same-lower', 'same-upper', 'same-parenthesised', 'constant', 'tuple'):
+                v = ['column'] * len(opnd)
+                v[i] = kind_
+                variants.append(v)
+        for v in variants:
+            operands = [mk(kind_, f'o{i}') for i, kind_ in enumerate(v)]
+            values, oi = [], 0
+            for s_ in p.rhs:
+                if s_ == 'expr':
+                    values.append(operands[oi])
+                    oi += 1
+                else:
+                    values.append(spelling(g.lexer, s_) or s_)
+            it = Interp.for_file(ctx.src, g.file, isa, {})
+            label = f'{d}:[{p}]:operands={"/".join(v)}'
+            n += 1
+            try:
+                res = it.call_function(p.func, [Obj('Parser'), prod_record(p, values)], {}, Env())
+            except Raised as r:
+                ctx.ob('C03.operator-action', label, False, f'{d}: the action of `{p}` raises {r.exc_name} on operands {v}', file=g.file, line=p.line)
+                continue
+            args = res.attrs.get('args') if isinstance(res, Obj) else None
+            ok = isinstance(res, Obj) and it.is_instance(res, ['Operation']) and isinstance(args, (list, tuple)) and len(args) == len(operands) \
+                and all(a is b for a, b in zip(args, operands)) and not any(res is o for o in operands) and (
+                    str(res.attrs.get('op', '')).lower() == optext.lower() or (k[0] == 'between' and res.kind == 'BetweenOperation' and str(res.attrs.get('op', 'between')).lower() == 'between'))
+            ctx.ob('C03.operator-action', label, ok,
+                   f'{d}: the action of `{p}` on operands {v} builds {res!r:.120}; it must build the operation `{optext}` over exactly its operands (each written operator '
+                   f'is one node of the tree, whatever the operands are): evaluating the tree otherwise differs from evaluating the text',
+                   file=g.file, line=p.line, witness='select not not a' if k[0] == 'un' else None)
+    ctx.count('operator_action_rows', n)
+
+
 def check_dialect(ctx, d):
     g = load_dialect(ctx.src, d)
+    check_operator_actions(ctx, g, d)
     t = tables_for(ctx.src, d)
     P = g.productions
     infix = infix_classes(g)
